@@ -17,8 +17,8 @@ import (
 )
 
 var recNode = kit.NewRecorder("C12", "nodes",
-	"two real nodes (started in different seconds, so their incarnations differ) connected over loopback TCP with the default pool of 3 links: 1-6 concurrent sender processes x 1-10 items from {Send, SendImportant, Call, CallImportant} addressed by pid / registered name / alias to {an existing unbounded receiver, a receiver with mailbox size 1 that is parked in a handler (full), a pid / name / alias that does not exist}, payloads from the EDF generator and byte strings up to 100 KiB, per-sender compression on/off; decoy processes with similar names and aliases stand by; "+
-		"oracle: every plain send that returned nil to an existing receiver with room is handled exactly once by the addressee with the true sender pid and an equal payload, never by a decoy; SendImportant / CallImportant return nil exactly when the message is in the remote receiver's log, otherwise the remote reason (unknown process / mailbox full) and the message is handled nowhere; a Call returns the addressee's reply for its own id; "+
+	"two real nodes (started in different seconds, so their incarnations differ) connected over loopback TCP with the default pool of 3 links: 1-6 concurrent sender processes x 1-10 items from {Send, SendImportant, Call, CallImportant, SendEvent on the sender's own event with two subscribers on the other node} addressed by pid / registered name / alias to {an existing unbounded receiver, a receiver with mailbox size 1 that is parked in a handler (full), a pid / name / alias that does not exist}, payloads from the EDF generator and byte strings up to 100 KiB, per-sender compression on/off; decoy processes with similar names and aliases stand by; "+
+		"oracle: every plain send that returned nil to an existing receiver with room is handled exactly once by the addressee with the true sender pid and an equal payload, never by a decoy; SendImportant / CallImportant return nil exactly when the message is in the remote receiver's log, otherwise the remote reason (unknown process / mailbox full) and the message is handled nowhere; a Call returns the addressee's reply for its own id; an event is handled exactly once by each of the two subscribers with an equal payload and by nobody else; "+
 		"non-trivial = >= 2 concurrent senders with an important item, or a refused important item; distinct by script")
 
 type nodePair struct {
@@ -52,14 +52,14 @@ func nodes() (*nodePair, error) {
 }
 
 type nitem struct {
-	ID        int64
-	Op        int // 0 Send 1 SendImportant 2 Call 3 CallImportant
-	Mode      int // 0 pid 1 name 2 alias
-	Target    int // 0 existing 1 full 2 missing
-	Body      any
-	Err       error
-	Reply     any
-	replyOK   bool
+	ID      int64
+	Op      int // 0 Send 1 SendImportant 2 Call 3 CallImportant 4 SendEvent (the sender's own event; two subscribers on the other node)
+	Mode    int // 0 pid 1 name 2 alias
+	Target  int // 0 existing 1 full 2 missing
+	Body    any
+	Err     error
+	Reply   any
+	replyOK bool
 }
 
 func propNodes(t *rapid.T) {
@@ -76,9 +76,9 @@ func propNodes(t *rapid.T) {
 		k := rapid.IntRange(1, 10).Draw(t, "items")
 		for j := 0; j < k; j++ {
 			id++
-			it := &nitem{ID: id, Op: rapid.IntRange(0, 3).Draw(t, "op"), Mode: rapid.IntRange(0, 2).Draw(t, "mode"),
+			it := &nitem{ID: id, Op: rapid.SampledFrom([]int{0, 1, 2, 3, 0, 1, 2, 3, 4}).Draw(t, "op"), Mode: rapid.IntRange(0, 2).Draw(t, "mode"),
 				Target: rapid.SampledFrom([]int{0, 0, 0, 1, 2}).Draw(t, "target")}
-			if it.Op == 2 {
+			if it.Op == 2 || it.Op == 4 {
 				it.Target = 0 // a plain call to a full or missing target only waits for its timeout
 			}
 			if rapid.IntRange(0, 3).Draw(t, "big") == 0 {
@@ -153,6 +153,31 @@ func propNodes(t *rapid.T) {
 	for s := range senders {
 		senders[s] = mk(n.a, fmt.Sprintf("sender%d", s), "", gen.ProcessOptions{}, &kit.ActorConfig{Quiet: true})
 	}
+	// every sender owns an event; the receiver and one more process on the other node subscribe
+	// to all of them (two subscribers on one node: the event travels once per node)
+	sub2 := mk(n.b, "sub2", "", gen.ProcessOptions{}, &kit.ActorConfig{})
+	evName := make([]gen.Atom, ns)
+	evToken := make([]gen.Ref, ns)
+	for s := range senders {
+		evName[s] = gen.Atom(fmt.Sprintf("ev%s-%d", tag, s))
+		uses := false
+		for _, it := range plans[s] {
+			uses = uses || it.Op == 4
+		}
+		if !uses {
+			continue
+		}
+		var rerr error
+		if e := kit.InProc(n.a, senders[s], func(a *kit.Actor) { evToken[s], rerr = a.RegisterEvent(evName[s], gen.EventOptions{}) }); e != nil || rerr != nil {
+			t.Fatalf("register event: %v %v", e, rerr)
+		}
+		for _, sub := range []gen.PID{recv, sub2} {
+			var merr error
+			if e := kit.InProc(n.b, sub, func(a *kit.Actor) { _, merr = a.MonitorEvent(gen.Event{Name: evName[s], Node: n.a.Name()}) }); e != nil || merr != nil {
+				t.Fatalf("subscribe to the sender's event: %v %v", e, merr)
+			}
+		}
+	}
 	var wg sync.WaitGroup
 	for s := range plans {
 		wg.Add(1)
@@ -183,6 +208,8 @@ func propNodes(t *rapid.T) {
 					case 3:
 						it.Reply, it.Err = a.CallImportant(to, env)
 						it.replyOK = true
+					case 4:
+						it.Err = a.SendEvent(evName[s], evToken[s], env)
 					}
 				})
 				if e != nil && it.Err == nil {
@@ -210,12 +237,36 @@ func propNodes(t *rapid.T) {
 				}
 				out[e.Proc][env.ID]++
 			}
+			if me, ok := e.Msg.(gen.MessageEvent); ok && e.Kind == "event" {
+				if env, ok := me.Message.(netkit.Envelope); ok {
+					k := "event:" + e.Proc
+					if out[k] == nil {
+						out[k] = map[int64]int{}
+					}
+					out[k][env.ID]++
+				}
+			}
 		}
 		return out
 	}
+	evOf := map[int64]*nitem{}
+	for _, list := range plans {
+		for _, it := range list {
+			if it.Op == 4 {
+				evOf[it.ID] = it
+			}
+		}
+	}
 	kit.WaitUntil(10*time.Second, func() bool {
-		h := handled()["recv"]
+		all := handled()
+		h := all["recv"]
 		for id := range must {
+			if evOf[id] != nil {
+				if all["event:recv"][id] == 0 || all["event:sub2"][id] == 0 {
+					return false
+				}
+				continue
+			}
 			if h[id] == 0 {
 				return false
 			}
@@ -242,6 +293,40 @@ func propNodes(t *rapid.T) {
 			important := it.Op == 1 || it.Op == 3
 			if important {
 				importantCount++
+			}
+			if it.Op == 4 {
+				if it.Err != nil {
+					problems = append(problems, fmt.Sprintf("%s: SendEvent by the owner with the right token failed: %v", where, it.Err))
+					continue
+				}
+				for _, sub := range []string{"recv", "sub2"} {
+					if n := h["event:"+sub][it.ID]; n != 1 {
+						problems = append(problems, fmt.Sprintf("%s: the event was handled %d times by subscriber %s", where, n, sub))
+					}
+				}
+				for _, other := range []string{"decoy", "full"} {
+					if n := h["event:"+other][it.ID] + h[other][it.ID]; n != 0 {
+						problems = append(problems, fmt.Sprintf("%s: the event was handled by %s, which never subscribed", where, other))
+					}
+				}
+				if total != 0 {
+					problems = append(problems, fmt.Sprintf("%s: the event arrived as a plain message", where))
+				}
+				for _, e := range probe.Events() {
+					me, ok := e.Msg.(gen.MessageEvent)
+					if !ok || e.Kind != "event" {
+						continue
+					}
+					if env, ok := me.Message.(netkit.Envelope); ok && env.ID == it.ID {
+						if me.Event.Name != evName[s] || me.Event.Node != n.a.Name() {
+							problems = append(problems, fmt.Sprintf("%s: event identity changed: %v", where, me.Event))
+						}
+						if err := edfgen.Equal(it.Body, env.Body, edfgen.EqOptions{SentinelIdentity: true}); err != nil {
+							problems = append(problems, fmt.Sprintf("%s: event payload changed: %v", where, err))
+						}
+					}
+				}
+				continue
 			}
 			switch it.Target {
 			case 0:
